@@ -156,3 +156,27 @@ PROPS["C08"] = dict(
     outside="text and JSON; Vector WriteTo/ReadFrom/AsyncReadFrom; SetInterface; one-word fields (goldilocks, koalabear, babybear)",
     assumptions=["toMont / fromMont as opaque functions of the limb vector"],
 )
+
+CURVES = ["bn254", "bls12-377", "bls12-381", "bls24-315", "bls24-317", "bw6-633", "bw6-761", "grumpkin", "secp256k1", "stark-curve"]
+
+
+def curve_params(c, g="G1"):
+    return dict(G=g, g=g.lower(), Full=0 if c == "stark-curve" else 1, FpPath="github.com/consensys/gnark-crypto/ecc/%s/fp" % c, FpSuffix="%s/fp" % c,
+                ACoeff="aCurveCoeff" if c != "secp256k1" and c != "grumpkin" else "fp.Element{}")
+
+
+PROPS["C02"] = dict(
+    jobs=[Job("ecc/" + c, ["C02/points.go.tmpl", "C02/g1.go.tmpl"], params=curve_params(c)) for c in CURVES],
+    level_text="Proof (no size bound: coordinates are arbitrary field elements) that G1 point arithmetic of the 10 short-Weierstrass "
+               "curves implements the chord-and-tangent law in affine, Jacobian and extended-Jacobian coordinates: Add/Sub/Double/Neg, "
+               "mixed variants, the bucket operations add/addMixed/subMixed/double/doubleMixed/doubleNegMixed, conversions, Equal, "
+               "IsInfinity and IsOnCurve, for every stratum of operand pairs (either operand infinite, equal points given by different "
+               "representatives, opposite points, 2-torsion, generic) and arbitrary projective scalings.",
+    level_note="Base-field elements are interpreted as reals: a rational identity with integer coefficients valid over Q is valid in "
+               "every field where its denominators are units; non-vanishing conclusions (Z3 != 0) are transferred to F_p by assumption. "
+               "The curve equation is used only to argue that the strata are exhaustive. Counterexamples are replayed natively on "
+               "genuine curve points close to the model.",
+    bounds="none on coordinates; G1 only",
+    outside="G2 (E2/E4 coordinates), twisted Edwards curves, subgroup membership tests, batch conversions: not yet covered",
+    assumptions=["real-closed-field surrogate for F_p (identities exact, inequations assumed to transfer)", "finite points are not (0,0)"],
+)
